@@ -60,6 +60,8 @@ func runC05(c *fw.C) {
 	c.Desc("cfg{%s} pool=%d ops=%d", cfg, pool, nops)
 	d := NewDriver(c, "C05", cfg, pool)
 	d.WReload, d.WPersist, d.WClone = 7, 2, 2
+	d.PersistFaults = true
+	d.ReloadClause = "C05.reload_identity"
 	var lastFP uint64
 	d.OnReload = func(d *Driver, before *mast.Mast, root *mast.Root, after *mast.Mast) {
 		c.Obs("reloads_checked", 1)
